@@ -36,4 +36,4 @@ for m in mods:
 PY
 cd $D/repo
 H=$1; shift
-CARGO_NET_OFFLINE=true cargo kani -Z function-contracts -Z stubbing -Z unstable-options --output-format terse --harness "$H" "$@" 2>&1 | grep -v "^warning\|^ *|\|^ *= note\|^ *-->\|^$\|register_tool\|^[0-9 ]*|" 
+CARGO_NET_OFFLINE=true cargo kani -Z function-contracts -Z stubbing -Z unstable-options --no-assertion-reach-checks --output-format terse --harness "$H" "$@" 2>&1 | grep -v "^warning\|^ *|\|^ *= note\|^ *-->\|^$\|register_tool\|^[0-9 ]*|" 
